@@ -1,6 +1,6 @@
 (* Props_C10.v — the directory is a valid layout equal to the API state.  Model: Reg.v (requests), GC.v (collections,
    restarts); what the directory of a repository holds = its blobs, the top-level entries of its index and the conversion mark. *)
-From Olareg Require Import Base Index Reg RegProofs GC GCProofs LayoutProofs.
+From Olareg Require Import Base Index IndexInv Reg RegProofs RegInv TagProofs GC GCProofs LayoutProofs.
 Local Open Scope list_scope.
 
 (* blobs/<alg>/<hex>: in every state reachable by client requests every stored blob is stored under the digest of its bytes ... *)
@@ -34,3 +34,11 @@ Theorem C10_reopen_manifest_get : forall cfg E r arg accept range s s',
   snd (run cfg E (h_manifest_get E r arg accept range) s') = snd (run cfg E (h_manifest_get E r arg accept range) s).
 Proof. exact manifest_get_same_disk. Qed.
 Print Assumptions C10_reopen_manifest_get.
+
+(* unique tags: every index.json the model can produce - through any requests, collections, ageing and restarts - holds
+   each tag on at most one entry *)
+Theorem C10_tags_unique_requests : forall cfg E h, IdxOK (fst (run_hist cfg E init_state h)).
+Proof. exact idx_ok_reachable. Qed.
+Theorem C10_tags_unique_gc : forall cfg pol E s g, IdxOK s -> IdxOK (fst (gstep cfg pol E s g)).
+Proof. exact gstep_idx_ok. Qed.
+Print Assumptions C10_tags_unique_gc.
